@@ -1,10 +1,77 @@
 package main
 
 import (
+	"bytes"
 	"flag"
 	"fmt"
 	"os"
+	"os/exec"
+	"strings"
+	"time"
 )
+
+// Properties whose runs are not split into isolated workers of their own are run in a child
+// process: when the child is killed by the Go runtime (fatal stack overflow, an unrecovered panic
+// inside the implementation), the query that was running is the failing input.
+var supervised = map[string]bool{"C02": true, "C06": true, "C07": true, "C08": true, "C12": true, "C13": true, "C15": true,
+	"C16": true, "C17": true, "C18": true, "C19": true, "C20": true}
+
+var currentFile *os.File
+
+// markCurrent records the query about to be handed to the implementation (child process only)
+func markCurrent(q string) {
+	if currentFile == nil {
+		return
+	}
+	_ = currentFile.Truncate(0)
+	_, _ = currentFile.WriteAt([]byte(q), 0)
+}
+
+// headBuf keeps the first 64 KB written to it (the Go runtime names the cause first)
+type headBuf struct{ buf []byte }
+
+func (h *headBuf) Write(p []byte) (int, error) {
+	if len(h.buf) < 1<<16 {
+		h.buf = append(h.buf, p...)
+	}
+	return len(p), nil
+}
+
+func supervise(pid, out string, seed int64, tier string) {
+	start := time.Now()
+	cur := out + "/current.txt"
+	_ = os.Remove(cur)
+	cmd := exec.Command(os.Args[0], os.Args[1:]...)
+	cmd.Env = append(os.Environ(), "HARNESS_CHILD=1")
+	cmd.Stdout = os.Stdout
+	tail := &headBuf{}
+	cmd.Stderr = tail
+	err := cmd.Run()
+	if err == nil {
+		return
+	}
+	log := string(tail.buf)
+	os.Stderr.WriteString(log)
+	q, _ := os.ReadFile(cur)
+	crashed := strings.Contains(log, "fatal error:") || strings.Contains(log, "goroutine stack exceeds") || strings.Contains(log, "\npanic: ") || strings.HasPrefix(log, "panic: ")
+	if !crashed || len(bytes.TrimSpace(q)) == 0 {
+		os.Exit(2)
+	}
+	what := "the process was aborted by the Go runtime"
+	for _, l := range strings.Split(log, "\n") {
+		if strings.HasPrefix(l, "fatal error:") || strings.HasPrefix(l, "panic: ") || strings.Contains(l, "goroutine stack exceeds") {
+			what = l
+			break
+		}
+	}
+	sum := newSummary(pid, seed, tier)
+	desc := map[string]interface{}{"text": string(q), "query": string(q)}
+	sum.Cases["0"] = desc
+	sum.Evaluations = 1
+	sum.Rule = "the run was cut short: the process died while the implementation ran the query below"
+	sum.Failures = append(sum.Failures, failure{ID: 0, Class: "process-aborted", Input: desc, Observed: what, Expected: "answers, failure or an error term"})
+	sum.write(out, start)
+}
 
 var workerFrom = -1
 var shrinkID = -1
@@ -41,6 +108,13 @@ func main() {
 	}
 	if err := os.MkdirAll(*out, 0o755); err != nil {
 		fatal("%v", err)
+	}
+	if supervised[flag.Arg(0)] && shrinkID < 0 {
+		if os.Getenv("HARNESS_CHILD") == "" {
+			supervise(flag.Arg(0), *out, *seed, *tier)
+			return
+		}
+		currentFile, _ = os.OpenFile(*out+"/current.txt", os.O_CREATE|os.O_RDWR|os.O_TRUNC, 0o644)
 	}
 	switch flag.Arg(0) {
 	case "C07":
